@@ -67,6 +67,8 @@ def decodeOp (j : Json) : Except String Op := do
   match k with
   | "gain" => pure (.gain (← J.getInt j "s"))
   | "lose" => pure (.lose (← J.getInt j "s"))
+  | "loseBegin" => pure (.loseBegin (← J.getInt j "s"))
+  | "loseEnd" => pure (.loseEnd (← J.getInt j "s"))
   | "newLeader" => pure (.newLeader (← J.getInt j "s") (← J.getHex j "id"))
   | "leaderCheck" => pure .leaderCheck
   | "listerAdd" => pure (.listerAdd (← J.getHex j "u"))
@@ -225,6 +227,31 @@ def doStop (a : Json) : Except String Json := do
   pure <| J.obj [("ok", J.bool r.2.1), ("attempts", J.nat r.2.2), ("stopCh", J.bool r.1.stopCh),
                  ("stopped", J.bool r.1.stopped), ("flusher", J.bool r.1.flusherRunning)]
 
+/-- `C13.overlap {ops:[{op, id}]}`: overlapping starts/stops of one shard (`Overlap`); per op the state after it.
+    "alloc" (an allocation served or refused) changes nothing here. -/
+def doOverlap (a : Json) : Except String Json := do
+  let ops ← (← J.getArr a "ops").toList.mapM fun j => do
+    match (← J.getStr j "op") with
+    | "begin" => pure (some Overlap.OOp.begin)
+    | "ok" => pure (some (Overlap.OOp.finishOk (← J.getNat j "id")))
+    | "fail" => pure (some (Overlap.OOp.finishFail (← J.getNat j "id")))
+    | "lose" => pure (some Overlap.OOp.lose)
+    | "check" => pure (some Overlap.OOp.check)
+    | "alloc" => pure none
+    | k => throw s!"unknown overlap op {k}"
+  let enc (st : Overlap.OState) : Json := J.obj [
+    ("leader", J.bool st.leader),
+    ("map", match st.map with | some i => J.nat i | none => Json.null),
+    ("stores", Json.arr (st.stores.map J.bool).toArray),
+    ("pending", Json.arr (st.pending.map J.nat).toArray)]
+  let rec go (st : Overlap.OState) (rest : List (Option Overlap.OOp)) (acc : Array Json) : Array Json :=
+    match rest with
+    | [] => acc
+    | o :: rest' =>
+      let st' := match o with | some op => Overlap.step st op | none => st
+      go st' rest' (acc.push (enc st'))
+  pure <| J.obj [("steps", Json.arr (go Overlap.init ops #[]))]
+
 /-- `handle method args`: `none` when the method is unknown. -/
 def handle (m : String) (a : Json) : Option (Except String Json) :=
   match m with
@@ -234,6 +261,7 @@ def handle (m : String) (a : Json) : Option (Except String Json) :=
   | "k8s" => some (doK8s a)
   | "gwhist" => some (doGwHist a)
   | "stop" => some (doStop a)
+  | "overlap" => some (doOverlap a)
   | _ => none
 
 end KG.Driver.C13
